@@ -1,3 +1,4 @@
+import DhcpProofs.Props.C05
 import DhcpProofs.Lemmas.V6Fuel
 import DhcpProofs.Lemmas.LabelApi
 import DhcpProofs.Lemmas.V6Parse
@@ -66,10 +67,16 @@ touches nothing else. -/
 /-- what the normalisation does to one label set -/
 theorem C02_normLabels (orig : Option Bytes) (ns : List Bytes) :
     normLabels ⟨none, ns⟩ = ⟨some (Label.labelsToBytes ns), ns⟩ ∧
-    (∀ b, normLabels ⟨some b, ns⟩ = ⟨some b, ns⟩) ∧
+    (∀ b, Label.labelsFromBytes b = .ok ns → normLabels ⟨some b, ns⟩ = ⟨some b, ns⟩) ∧
+    (∀ b ns0, Label.labelsFromBytes b = .ok ns0 → ns0 ≠ ns →
+      normLabels ⟨some b, ns⟩ = ⟨some (Label.labelsToBytes ns), ns⟩) ∧
     (normLabels ⟨orig, ns⟩).labels = ns ∧
-    (normLabels ⟨orig, ns⟩).toBytes = (Label.Labels.mk orig ns).toBytes :=
-  ⟨rfl, fun _ => rfl, normLabels_labels _, normLabels_toBytes _⟩
+    (normLabels ⟨orig, ns⟩).toBytes = (Label.Labels.mk orig ns).toBytes := by
+  refine ⟨?_, ?_, ?_, normLabels_labels _, normLabels_toBytes _⟩
+  · simp only [normLabels, Label.toBytes_original_none ⟨none, ns⟩ rfl]
+  · intro b hb; exact normLabels_of_LabelsOK ⟨b, rfl, hb⟩
+  · intro b ns0 hb hne
+    simp [normLabels, Label.Labels.toBytes, Label.goBytes, hb, hne]
 
 /-- **C02 (round trip with fresh label sets).** For every message or relay
 chain of the extended domain — any depth, any number of options, label sets
@@ -148,12 +155,12 @@ example : WFMsg' exFresh ∧ ¬ WFMsg exFresh := by
   constructor
   · refine ⟨by decide, ip16_zeros, ip16_zeros, ?_, by decide, trivial⟩
     refine ⟨by decide, by decide, ?_, by decide, ?_, by decide, ?_, by decide, ?_, by decide, trivial⟩
-    · exact .inr ⟨rfl, by decide⟩
-    · exact .inr ⟨rfl, by decide⟩
+    · exact .inr ⟨by decide, .inl rfl⟩
+    · exact .inr ⟨by decide, .inl rfl⟩
     · intro s hs
       simp only [List.mem_singleton] at hs
       subst hs
-      exact ⟨⟨.inr ⟨rfl, by decide⟩, rfl⟩, by decide⟩
+      exact ⟨⟨.inr ⟨by decide, .inl rfl⟩, rfl⟩, by decide⟩
     · exact ⟨by decide, d 3600, d 7200, trivial⟩
   · intro h
     simp only [exFresh, WFMsg, WFOpts, WFOpt] at h
@@ -173,17 +180,78 @@ example : dec6 (encMsg exFresh) = .ok
     have d (s : Nat) (h : s < 4294967296 := by decide) : DurOK ((s : Int) * second) := durOK_ofNat s h
     refine ⟨by decide, ip16_zeros, ip16_zeros, ?_, by decide, trivial⟩
     refine ⟨by decide, by decide, ?_, by decide, ?_, by decide, ?_, by decide, ?_, by decide, trivial⟩
-    · exact .inr ⟨rfl, by decide⟩
-    · exact .inr ⟨rfl, by decide⟩
+    · exact .inr ⟨by decide, .inl rfl⟩
+    · exact .inr ⟨by decide, .inl rfl⟩
     · intro s hs
       simp only [List.mem_singleton] at hs
       subst hs
-      exact ⟨⟨.inr ⟨rfl, by decide⟩, rfl⟩, by decide⟩
+      exact ⟨⟨.inr ⟨by decide, .inl rfl⟩, rfl⟩, by decide⟩
     · exact ⟨by decide, d 3600, d 7200, trivial⟩
   rw [C02_roundtrip_fresh exFresh hd]
-  have e1 : Label.labelsToBytes [[97, 46, 98], [99]] = [1, 97, 1, 98, 0, 1, 99, 0] := by decide
-  have e2 : Label.labelsToBytes [[104, 46, 99]] = [1, 104, 1, 99, 0] := by decide
-  have e3 : Label.labelsToBytes [[110, 46, 116]] = [1, 110, 1, 116, 0] := by decide
+  have e1 : (Label.Labels.mk none [[97, 46, 98], [99]]).toBytes = [1, 97, 1, 98, 0, 1, 99, 0] := by
+    rw [Label.toBytes_original_none _ rfl]; decide
+  have e2 : (Label.Labels.mk none [[104, 46, 99]]).toBytes = [1, 104, 1, 99, 0] := by
+    rw [Label.toBytes_original_none _ rfl]; decide
+  have e3 : (Label.Labels.mk none [[110, 46, 116]]).toBytes = [1, 110, 1, 116, 0] := by
+    rw [Label.toBytes_original_none _ rfl]; decide
   simp only [exFresh, normMsg, normOpts, normOpt, normNTP, normLabels, List.map, e1, e2, e3]
+
+/-! ### label sets that were decoded and then edited
+
+`WFMsg'` also admits a label set that was decoded from SOME bytes and whose names
+were changed afterwards (`d.Labels[i] = …`, names dropped or appended), as long
+as the names now in it are valid: `ToBytes` then re-encodes the names (or keeps
+the original when the edit was undone), and the trip returns the edited names
+with the emitted bytes as their `original`. -/
+
+/-- a domain search list decoded from the wire form of "a.b", then edited to
+"c", "a.b" by the caller -/
+def exEdited : Msg6 :=
+  .msg 1 [7, 8, 9] [.domainSearch ⟨some [1, 97, 1, 98, 0], [[99], [97, 46, 98]]⟩]
+
+/-- Non-vacuity for edited sets: `exEdited` is in the extended domain, not in
+`WFMsg`, and the trip returns the edited names carrying their own wire form -/
+example : WFMsg' exEdited ∧ ¬ WFMsg exEdited ∧
+    dec6 (encMsg exEdited) = .ok
+      (.msg 1 [7, 8, 9] [.domainSearch ⟨some [1, 99, 0, 1, 97, 1, 98, 0], [[99], [97, 46, 98]]⟩]) := by
+  have hp : Label.labelsFromBytes [1, 97, 1, 98, 0] = .ok [[97, 46, 98]] := by decide
+  have hd : WFMsg' exEdited :=
+    ⟨by decide, by decide, .inr ⟨by decide, .inr ⟨_, _, rfl, hp⟩⟩, by decide, trivial⟩
+  refine ⟨hd, ?_, ?_⟩
+  · intro h
+    simp only [exEdited, WFMsg, WFOpts, WFOpt] at h
+    obtain ⟨b, hb, hb'⟩ := h.2.2.1
+    simp only [Option.some.injEq] at hb
+    subst hb
+    rw [hp] at hb'
+    exact absurd hb' (by decide)
+  · rw [C02_roundtrip_fresh exEdited hd]
+    have e : (Label.Labels.mk (some [1, 97, 1, 98, 0]) [[99], [97, 46, 98]]).toBytes =
+        [1, 99, 0, 1, 97, 1, 98, 0] := by
+      have : (Label.Labels.mk (some [1, 97, 1, 98, 0]) [[99], [97, 46, 98]]).toBytes =
+          Label.labelsToBytes [[99], [97, 46, 98]] := by
+        simp [Label.Labels.toBytes, Label.goBytes, hp]
+      rw [this]; decide
+    simp only [exEdited, normMsg, normOpts, normOpt, normLabels, e]
+
+/-! ### the RFC wire layout, against the fully declarative grammar
+
+`Spec.PMsg'` (Dhcp/Spec/Wire6Rfc.lean, Leaf6.lean) describes RFC 8415 messages,
+relay headers, option framing AND the value layout of every option without any
+decoder code.  The encoder's output is derivable in it, with the message itself
+(its normal form, when it carries fresh or edited label sets) as the reading —
+"the emitted bytes are the RFC wire layout" as a theorem about the model. -/
+
+theorem C02_wire_rfc (m : Msg6) (h : WFMsg m) : Spec.PMsg' (encMsg m) m :=
+  (C05_exact_rfc _ _).mp (dec6_encMsg m h)
+
+theorem C02_wire_rfc_fresh (m : Msg6) (h : WFMsg' m) : Spec.PMsg' (encMsg m) (normMsg m) :=
+  (C05_exact_rfc _ _).mp (dec6_encMsg_fresh m h)
+
+/-- … and nothing else is: whatever the grammar reads out of the emitted bytes
+is that message (the grammar is functional, `C05_functional_rfc`) -/
+theorem C02_wire_rfc_unique (m m' : Msg6) (h : WFMsg' m) (h' : Spec.PMsg' (encMsg m) m') :
+    m' = normMsg m :=
+  C05_functional_rfc _ _ _ h' (C02_wire_rfc_fresh m h)
 
 end Dhcp.Props
